@@ -601,16 +601,26 @@ class MarkdownNormalizer(Renderer):
             children_content = children_content[:start] + "\\" + children_content[start:]
         self._in_heading = False
         self._current_inline_text = ""
+        heading_text = f"{self._prefix}{'#' * element.level} {children_content}"
+        if "\n" in children_content:
+            # A hard line break inside a (setext) heading: an ATX heading is a single line and
+            # cannot hold it, so the setext form is kept.
+            lines = children_content.split("\n")
+            lines.append(("=" if element.level == 1 else "-") * 3)
+            heading_text = "\n".join(
+                [self._prefix + lines[0]] + [self._second_prefix + line for line in lines[1:]]
+            )
+            children_content = ""
         # If heading ends with hard break, don't add extra newline
         if (len(children_content) - len(children_content.rstrip("\\"))) % 2 == 1:
-            result = f"{self._prefix}{'#' * element.level} {children_content}\n"
+            result = f"{heading_text}\n"
             self._prefix = self._second_prefix
             # Don't skip next blank line or suppress item break for hard breaks
             return result
         elif self._list_depth > 0 and self._current_list_tight:
             # Inside an item of a tight list no blank line follows the heading: between two
             # blocks of an item it would make the list loose.
-            result = f"{self._prefix}{'#' * element.level} {children_content}\n"
+            result = f"{heading_text}\n"
             self._prefix = self._second_prefix
             # As after a paragraph: nothing is pending.
             self._skip_next_blank_line = False
@@ -620,7 +630,7 @@ class MarkdownNormalizer(Renderer):
             # The blank line after the heading carries the container prefix (`>` inside a
             # quote); a bare blank line would end the quote there.
             blank_line = self._second_prefix.rstrip()
-            result = f"{self._prefix}{'#' * element.level} {children_content}\n{blank_line}\n"
+            result = f"{heading_text}\n{blank_line}\n"
             self._prefix = self._second_prefix
             # Skip the next blank line since we already added one
             self._skip_next_blank_line = True
